@@ -261,7 +261,7 @@ def enum_paths(body, max_paths=4000, start=0, env0=None, unroll=False):
                 if t[0] == "agg" and t[1] in ("tuple", "adt", "closure") and e["f"] < len(t[4]):
                     t = t[4][e["f"]]
                 else:
-                    t = ("field", t, nm if nm is not None else e["f"], e["f"])
+                    t = ("field", t, nm if nm is not None else e["f"], e["f"], e.get("adt"))
             elif isinstance(e, dict) and "idx" in e:
                 t = ("index", t, term_place(env, {"l": e["idx"], "p": []}))
             elif isinstance(e, dict) and "cidx" in e:
